@@ -29,7 +29,9 @@ UNIT = {"CC": ("[<]CC[>]", "CC"), "CO": ("[<]CO[>]", "CO"), "CS": ("[<]CS[>]", "
         # isotope-labelled heavy atom (the generator weighs the real molecule, labels included)
         "C13": ("[<]C(N)[13CH2][>]", "C(N)[13CH2]"),
         # a side group that looks like the beginning of the next unit (a second, dead-end placement at the growing end)
-        "CEt": ("[<]C(CC)(N)C[>]", "C(CC)(N)C")}
+        "CEt": ("[<]C(CC)(N)C[>]", "C(CC)(N)C"),
+        # explicit weights on the growing-end descriptor / a weight other than 1 (hand-over between adjacent blocks)
+        "CNw": ("[<|2|]C(N)C[>]", "C(N)C"), "COw": ("[<]C(=O)C[>|3|]", "C(=O)C")}
 
 
 def instances(tier):
@@ -67,6 +69,7 @@ def instances(tier):
     out.append({"start": ("prefix", "OCC"), "blocks": [("C13", "uniform", (0, 300))], "suffix": "[Si]"})
     out.append({"start": ("prefix", "OCC"), "blocks": [("CN", "poisson", (3.0,))], "suffix": "[Si]"})
     out.append({"start": ("prefix", "OCC"), "blocks": [("CEt", "uniform", (0, 300))], "suffix": "[Si]"})
+    out.append({"start": ("prefix", "OCC"), "blocks": [("CNw", "uniform", (0, 200)), ("COw", "gauss", (100.0, 30.0))], "suffix": "F"})
     out.append({"start": ("prefix", "OCC"), "blocks": [("CN", "uniform", (0, 200)), ("CO", "poisson", (3.0,))], "suffix": "[Si]"})
     # integer-valued laws with unit masses whose cumulative values have fractional parts below and above one half
     out.append({"start": ("prefix", "N"), "blocks": [("CCl", "flory_schulz", (0.01,))], "suffix": "F"})
